@@ -1089,6 +1089,13 @@ class Interp:
             if isinstance(a, Ptr) and a.meta is not None:
                 return bv.const(a.meta, 64)
             return Agg(())
+        if name in ("saturating_add", "saturating_sub"):
+            bits, signed = self.ty.int_info(ga[0]["ty"])
+            if signed:
+                raise Undecided("signed %s" % name)
+            if name == "saturating_add":
+                return bv.ite(bv.carry_add(args[0], args[1]), bv.const(-1, bits), bv.add(args[0], args[1]))
+            return bv.ite(bv.cmp_bit("ult", args[0], args[1]), bv.const(0, bits), bv.sub(args[0], args[1]))
         if name == "raw_eq":
             t = ga[0]["ty"]
             x = self.to_bits(self.deref_read(args[0], t), t)
